@@ -1399,6 +1399,25 @@ impl<Front: SocketHandler + std::fmt::Debug, L: ListenerHandler + L7ListenerHand
             if self.frontend.has_pending_write() {
                 should_write = true;
             }
+            // The streams linked to a backend when the timeout fired. Collected
+            // before the pass below: `set_default_answer` and
+            // `forcefully_terminate_answer` retire a stream to `Unlinked`, and
+            // a stream answered that way must still be ended on its backend
+            // (as the backend-timeout branch does) or the backend keeps the
+            // stream's `active_requests` charge forever.
+            let linked_streams: Vec<(GlobalStreamId, Token)> = self
+                .context
+                .streams
+                .iter()
+                .enumerate()
+                .filter_map(|(id, stream)| {
+                    if let StreamState::Linked(back_token) = stream.state {
+                        Some((id, back_token))
+                    } else {
+                        None
+                    }
+                })
+                .collect();
             let front_readiness = self.frontend.readiness_mut();
             for stream_id in 0..self.context.streams.len() {
                 match self.context.streams[stream_id].state {
@@ -1476,19 +1495,6 @@ impl<Front: SocketHandler + std::fmt::Debug, L: ListenerHandler + L7ListenerHand
             }
             // Second pass: end streams that were linked to backends.
             // This is done separately to avoid borrow conflicts on context.streams.
-            let linked_streams: Vec<(GlobalStreamId, Token)> = self
-                .context
-                .streams
-                .iter()
-                .enumerate()
-                .filter_map(|(id, stream)| {
-                    if let StreamState::Linked(back_token) = stream.state {
-                        Some((id, back_token))
-                    } else {
-                        None
-                    }
-                })
-                .collect();
             for (stream_id, back_token) in linked_streams {
                 if let Some(backend) = self.router.backends.get_mut(&back_token) {
                     backend.end_stream(stream_id, &mut self.context);
